@@ -21,6 +21,8 @@ func main() {
 		cmdRun(os.Args[2:])
 	case "check":
 		os.Exit(engine.CmdCheck(os.Args[2:]))
+	case "native":
+		os.Exit(engine.CmdNative(os.Args[2:]))
 	case "replay":
 		os.Exit(engine.CmdReplay(os.Args[2:]))
 	default:
@@ -41,6 +43,8 @@ func cmdRun(args []string) {
 	noif := fs.Bool("noif", false, "disable if-conversion")
 	hdir := fs.String("harness", "/verif/harness", "")
 	params := fs.String("params", "", "k=v,k=v")
+	allocCut := fs.Int("alloccut", 0, "")
+	havoc := fs.Bool("havoc", false, "float havoc")
 	fs.Parse(args)
 	t0 := time.Now()
 	prog, err := engine.Load(*hdir, []string{"./" + *pkg})
@@ -59,6 +63,8 @@ func cmdRun(args []string) {
 	cfg.Tier = *tier
 	cfg.MaxSteps = *steps
 	cfg.IfConvert = !*noif
+	cfg.AllocCut = *allocCut
+	cfg.FloatHavoc = *havoc
 	cfg.Params = map[string]int64{}
 	for _, kv := range strings.Split(*params, ",") {
 		if i := strings.IndexByte(kv, '='); i > 0 {
